@@ -5,7 +5,7 @@ Mutants (mutants/C14/*.diff, all DETECTED by the quick tier, see mutants/C14/RES
   range_no_remove_notify    range notification loop removed from DOMParentNode::removeChild
   iter_removenode_next      DOMNodeIteratorImpl::removeNode uses nextNode() when moving forward
   deeplist_ignores_changes  DOMDeepNodeListImpl::cacheItem ignores the document's change counter
-  range_deltext_offbyone    DOMRangeImpl::updateRangeForDeletedText compares with >= instead of >
+  range_deltext_end_uses_start  DOMRangeImpl::updateRangeForDeletedText tests the start container in the end-offset branch
   range_insnode_le          DOMRangeImpl::updateRangeForInsertedNode uses <= for the start offset
 """
 import json
@@ -30,12 +30,17 @@ META = dict(
 )
 
 CONSTS = {
-    "quick": dict(gens=["all.quick", "it.quick", "rg.quick", "ls.quick"], walks=160, wdepth=40),
-    "thorough": dict(gens=["all.thorough", "it.thorough", "rg.thorough", "ls.thorough"], walks=4000, wdepth=40),
+    "quick": dict(gens=["it.quick", "rg.quick", "ls.quick"], walks=64, wdepth=40),
+    "thorough": dict(gens=["all.thorough", "it.thorough", "rg.thorough", "ls.thorough"], walks=800, wdepth=40),
 }
 
 
-def _pipe(out, module, cfg, mode, exe, simulate=None, depth=None, workers=8, timeout=6000, nproc=8, coverage=False):
+NW = max(1, int(os.environ.get("VERIF_WORKERS", "8")))     # TLC workers and harness processes (8 on the 16-core reference machine)
+
+
+def _pipe(out, module, cfg, mode, exe, simulate=None, depth=None, workers=None, timeout=20000, nproc=None, coverage=False):
+    workers = workers or NW
+    nproc = nproc or NW
     p = C.Piper([exe, mode, "1"], timeout=timeout, nproc=nproc)
     res = C.tlc(module, cfg, workers=workers, on_chunk=p.feed_chunk, simulate=simulate, depth=depth, timeout=timeout, heap="8g", coverage=coverage)
     p.close()
@@ -61,7 +66,9 @@ def _acts(cnt):
 
 
 def run(out, tier):
-    k = CONSTS[tier]
+    k = dict(CONSTS[tier])
+    if os.environ.get("VERIF_C14_GENS"):          # development aid: run a subset of the generator configurations
+        k["gens"] = os.environ["VERIF_C14_GENS"].split(",")
     C.build_lib("hooks")
     exe = C.build_harness("domviews_harness")
     cov = out.coverage
@@ -94,7 +101,7 @@ def run(out, tier):
     cov["states"] = states
     cov["transitions"] = trans
     # 3. W: random behaviours interleaving mutations, view creation, stepping and queries
-    rw, cw, sw, pw = _pipe(out, "DomViewsWalk", "DomViewsWalk.cfg", "w", exe, simulate=max(1, k["walks"] // 8), depth=k["wdepth"] + 1, workers=8)
+    rw, cw, sw, pw = _pipe(out, "DomViewsWalk", "DomViewsWalk.cfg", "w", exe, simulate=max(1, k["walks"] // NW), depth=k["wdepth"] + 1)
     cov["W"] = dict(walks=cw.get("walks", 0), steps=cw.get("steps", 0), compared=cw.get("compared", 0),
                     other_branch=cw.get("skipped_other_branch", 0), child_failures=sw.get("child_failures", 0), actions=_acts(cw))
     samples += [dict(walk=[h["op"] for h in C.decode_tlc_json(s)[0][:12]]) for s in pw.samples[:1]]
